@@ -33,42 +33,64 @@ def run(report, p):
     dm = ctx.methods.get("append_directory_hashes")
     if fm is None or dm is None:
         raise AnalysisError("DirectoryHashContext.append_file_hash / append_directory_hashes not found")
+    from sa.flow import substitute
+
+    def collect_appends(m, depth=0):
+        """(list attribute, value term in terms of m's parameters, node, func) for every self.<list>.append(...) in m and in
+        same-class helpers it calls (parameters of helpers bound to the actual arguments)"""
+        out = []
+        for n in walk_no_nested(m.node):
+            if isinstance(n, ast.Call) and isinstance(n.func, ast.Attribute) and n.func.attr == "append" and isinstance(n.func.value, ast.Attribute) and norm(n.func.value.value) == m.params[0] and n.args:
+                for o in pr.origins(n.args[0], m):
+                    out.append((n.func.value.attr, o, n, m))
+        if depth < 2:
+            for c, tg in p.calls[m.qual]:
+                for t in tg:
+                    if t in p.funcs and p.funcs[t].cls == m.cls and t != m.qual and isinstance(c.func, ast.Attribute) and norm(c.func.value) == m.params[0]:
+                        h = p.funcs[t]
+                        b = p.bind_args(h, c)
+                        binding = {}
+                        for pn, a in b.items():
+                            if a is not None:
+                                os_ = pr.origins(a, m) if any(x is a for x in ast.walk(c)) else []
+                                if len(os_) == 1:
+                                    binding[(h.qual, pn)] = os_[0]
+                        for (la, term, node, fn) in collect_appends(h, depth + 1):
+                            out.append((la, substitute(term, binding), node, fn))
+        return out
+
     for m, kind in ((fm, "file"), (dm, "dir")):
         r1.instance(m, m.node, f"{kind} child method")
-        apps = [n for n in walk_no_nested(m.node) if isinstance(n, ast.Call) and isinstance(n.func, ast.Attribute) and n.func.attr == "append"]
-        capp = [n for n in apps if "content" in norm(n.func.value)]
-        sapp = [n for n in apps if "structure" in norm(n.func.value)]
-        r1.check(len(capp) == 1 and len(sapp) == 1 and len(apps) == 2, m, m.node, "the method does not add exactly one value to the content list and one to the structure list", construct=f"{kind}: appends")
-        if len(capp) == 1:
-            co = pr.origins(capp[0].args[0], m)
-            r1.check(all(o[0] == "param" and o[2] == m.params[2] for o in co), m, capp[0], f"the content list receives `{norm(capp[0].args[0])}` instead of the child's content digest", construct=f"{kind}: content list source", witness="; ".join(show(o) for o in co))
-        if len(sapp) == 1:
-            so = pr.origins(sapp[0].args[0], m)
-            want_param = m.params[2] if kind == "file" else m.params[3]
-            ok = True
-            why = ""
-            for o in so:
-                if not (is_call(o, "hash_data") and len(o[2]) == 1):
-                    ok, why = False, "structure entry is not hash_data(<bytes>)"
-                    break
-                if not (o[5] is not None and o[5][0] == "attr" and o[5][2] == "hasher"):
-                    ok, why = False, "structure entry is not hashed with the context's own hasher"
-                    break
+        evs = collect_appends(m)
+        capp = [e for e in evs if "content" in e[0]]
+        sapp = [e for e in evs if "structure" in e[0]]
+        if not evs:
+            raise AnalysisError(f"{m.qual}: no append to the content / structure lists found (neither here nor in a helper method)")
+        r1.check(len(capp) == 1 and len(sapp) == 1 and len(evs) == 2, m, m.node, f"the method adds {len(capp)} value(s) to the content list and {len(sapp)} to the structure list; the definition needs exactly one each", construct=f"{kind}: appends")
+        for (la, o, node, fn) in capp:
+            r1.check(o[0] == "param" and o[1] == m.qual and o[2] == m.params[2], fn, node, f"the content list receives `{show(o)[:60]}` instead of the child's content digest", construct=f"{kind}: content list source", witness=show(o)[:120])
+        want_param = m.params[2] if kind == "file" else m.params[3]
+        for (la, o, node, fn) in sapp:
+            ok, why = True, ""
+            if not (is_call(o, "hash_data") and len(o[2]) == 1):
+                ok, why = False, "structure entry is not hash_data(<bytes>)"
+            elif not (o[5] is not None and o[5][0] == "attr" and o[5][2] == "hasher"):
+                ok, why = False, "structure entry is not hashed with the context's own hasher"
+            else:
                 a = o[2][0]
                 if not (a[0] == "op" and a[1] == "Add" and len(a[2]) == 2):
                     ok, why = False, "hashed bytes are not <name bytes> + <digest bytes>"
-                    break
-                name_t, dig_t = a[2]
-                name_ok = name_t[0] == "call" and name_t[1].endswith(".encode") and name_t[5] is not None and is_call(name_t[5], "os.path.basename") and is_call(name_t[5][2][0], "os.path.normpath") and name_t[5][2][0][2][0][0] == "param" and name_t[5][2][0][2][0][2] == m.params[1] and name_t[2] and name_t[2][0][0] == "const" and str(name_t[2][0][1]).lower().replace("-", "") == "utf8"
-                if not name_ok:
-                    ok, why = False, f"the bound name is not basename(normpath(path)).encode('utf8'): {show(name_t)[:100]}"
-                    break
-                dig_ok = is_call(dig_t, "bytes_from_string_digest") and dig_t[2] and dig_t[2][0][0] == "param" and dig_t[2][0][2] == want_param and dig_t[5] is not None and dig_t[5][0] == "attr" and dig_t[5][2] == "hasher"
-                if not dig_ok:
-                    bound = dig_t[2][0][2] if is_call(dig_t, "bytes_from_string_digest") and dig_t[2] and dig_t[2][0][0] == "param" else show(dig_t)[:60]
-                    ok, why = False, f"the name is bound to `{bound}`; the definition binds it to the child's {'content digest' if kind == 'file' else 'STRUCTURE hash'} (`{want_param}`), decoded to bytes with the context's hasher"
-                    break
-            r1.check(ok, m, sapp[0], f"{kind} child: {why}", construct=f"{kind}: structure entry wiring", witness="; ".join(show(o)[:200] for o in so))
+                else:
+                    name_t, dig_t = a[2]
+                    name_ok = name_t[0] == "call" and name_t[1].endswith(".encode") and name_t[5] is not None and is_call(name_t[5], "os.path.basename") and is_call(name_t[5][2][0], "os.path.normpath") and name_t[5][2][0][2][0][0] == "param" and name_t[5][2][0][2][0][1] == m.qual and name_t[5][2][0][2][0][2] == m.params[1] and name_t[2] and name_t[2][0][0] == "const" and str(name_t[2][0][1]).lower().replace("-", "") == "utf8"
+                    if not name_ok:
+                        ok, why = False, f"the bound name is not basename(normpath(path)).encode('utf8'): {show(name_t)[:100]}"
+                    else:
+                        dig_ok = is_call(dig_t, "bytes_from_string_digest") and dig_t[2] and dig_t[2][0][0] == "param" and dig_t[2][0][1] == m.qual and dig_t[2][0][2] == want_param and dig_t[5] is not None and dig_t[5][0] == "attr" and dig_t[5][2] == "hasher"
+                        if not dig_ok:
+                            bound = dig_t[2][0][2] if is_call(dig_t, "bytes_from_string_digest") and dig_t[2] and dig_t[2][0][0] == "param" else show(dig_t)[:60]
+                            ok, why = False, f"the name is bound to `{bound}`; the definition binds it to the child's {'content digest' if kind == 'file' else 'STRUCTURE hash'} (`{want_param}`), decoded to bytes with the context's hasher"
+            r1.check(ok, fn, node, f"{kind} child: {why}", construct=f"{kind}: structure entry wiring", witness=show(o)[:200])
     for name, lst in (("final_content_hash_str", "content"), ("final_structure_hash_str", "structure")):
         m = ctx.methods.get(name)
         if m is None:
